@@ -315,13 +315,17 @@ func (s *ManagedServer) DeleteCredential(username string) error {
 // LoadFromFile loads credentials from the configured credential file
 // and applies the changes to the associated credential stores.
 func (s *ManagedServer) LoadFromFile() error {
+	// Read the file with the lock held, so that the content is ordered against saves:
+	// a save that replaces the file between the read and the lock would otherwise make
+	// the reload parse the previous file and revert the save's user set.
+	s.mu.Lock()
 	content, close, err := mmap.ReadFile[string](s.path)
 	if err != nil {
+		s.mu.Unlock()
 		return err
 	}
 	defer close()
 
-	s.mu.Lock()
 	// Skip if the file content is unchanged.
 	// Nothing has been loaded yet when the maps are nil: an empty file must not
 	// be mistaken for unchanged content, or the server would run without its maps.
